@@ -14,6 +14,7 @@ Definition input_of (s : sx) : input :=
   | 2 => IMsg (n_at s 1) (n_at s 2) (enc_of (sx_nth s 3))
   | 3 => IReceipt (n_at s 1) (n_at s 2) (b_at s 3)
   | 4 => IRestart
+  | 6 => INotify (n_at s 1) (n_at s 2)
   | _ => IWipe
   end%N.
 
@@ -29,20 +30,24 @@ Definition sx_output (o : output) : sx :=
   | OErr c => SL [SN 5; SN c]
   | ODeliver c m p => SL [SN 6; SN c; SN m; SN p]
   | OTopReceipt c m r => SL [SN 7; SN c; SN m; sx_bool r]
+  | ONotifAck c m => SL [SN 8; SN c; SN m]
   end%N.
 
 Definition sx_ids (ids : list (N * N)) : sx := SL (map (fun p => SL [SN (fst p); SN (snd p)]) ids).
 
-Definition sx_sess (a : acct) : sx :=
-  SL (map (fun p => SL [SN (fst p); SL (map (fun s => SL [SN (s_sid s); SN (s_ident s)]) (snd p))]) (a_sess a)).
+Definition sx_sess (t : list (N * list sstate)) : sx :=
+  SL (map (fun p => SL [SN (fst p); SL (map (fun s => SL [SN (s_sid s); SN (s_ident s)]) (snd p))]) t).
 
 Fixpoint run_sx (a : acct) (ins : list input) : list sx :=
   match ins with
   | [] => []
   | i :: r => let '(a1, o) := step a i in
-              SL [SL (map sx_output o); sx_ids (a_ids a1); sx_sess a1] :: run_sx a1 r
+              SL [SL (map sx_output o); sx_ids (a_dids a1); sx_sess (a_dsess a1);
+                  sx_ids (a_ids a1); sx_sess (a_sess a1)] :: run_sx a1 r
   end.
 
-(* arg: (N autotrust (input ...)) -> ( ((output ...) ids sessions) ... ) one entry per input *)
+(* arg: (N autotrust (input ...)) -> ( ((output ...) ids sessions ids' sessions') ... ) one entry per input;
+   ids/sessions = the COMMITTED tables (what the harness reads through a connection of its own),
+   ids'/sessions' = the tables as the account's own connection sees them *)
 Definition run_history (arg : sx) : sx :=
   SL (run_sx (init (b_at arg 0)) (map input_of (sx_get_l (sx_nth arg 1)))).
